@@ -260,18 +260,21 @@ func (s *sched) note(what string, a int, b uint64) {
 }
 
 // point is called by the running thread before a hooked operation.
-func (s *sched) point(o op) {
+// It returns 0 when the thread was scheduled normally and 2 when it was
+// released as the second party of a rendezvous (it then does not hold the
+// baton and must park in the After hook of its operation).
+func (s *sched) point(o op) int {
 	t := s.cur
 	if s.aborting {
 		panic(abortSentinel{})
 	}
 	t.pending = o
-	s.dispatch(t)
+	return s.dispatch(t)
 }
 
 // dispatch picks the next thread. from is the thread giving up the baton (nil
 // when it has exited).
-func (s *sched) dispatch(from *thread) {
+func (s *sched) dispatch(from *thread) int {
 	s.out.Steps++
 	if s.out.Steps > s.horizon {
 		s.out.Horizon = true
@@ -279,7 +282,7 @@ func (s *sched) dispatch(from *thread) {
 		if from != nil {
 			s.parkForever(from)
 		}
-		return
+		return 0
 	}
 	enabled := s.enabledThreads(from)
 	if len(enabled) == 0 {
@@ -300,7 +303,7 @@ func (s *sched) dispatch(from *thread) {
 		if from != nil {
 			s.parkForever(from)
 		}
-		return
+		return 0
 	}
 	choice := 0
 	idx := len(s.out.Points)
@@ -312,7 +315,7 @@ func (s *sched) dispatch(from *thread) {
 			if from != nil {
 				s.parkForever(from)
 			}
-			return
+			return 0
 		}
 	}
 	p := Point{Enabled: enabled, Chosen: choice, Running: -1}
@@ -331,17 +334,20 @@ func (s *sched) dispatch(from *thread) {
 	s.lastRR = next.id
 	s.cur = next
 	if next == from {
-		return
+		return 0
 	}
 	if !next.started {
 		next.started = true
 	}
 	next.wake <- 0
 	if from != nil {
-		if v := <-from.wake; v == 1 {
+		v := <-from.wake
+		if v == 1 {
 			panic(abortSentinel{})
 		}
+		return v
 	}
+	return 0
 }
 
 func (s *sched) parkForever(t *thread) {
